@@ -22,16 +22,34 @@ def parseAttr (s : String) : Option (Name × TraitDef) :=
     | _ => none
   | _ => none
 
-def parseCls (s : String) : Option Cls :=
+/-- One class spec: own `__prefix__` (`-` none, `=text`), optional base class `^k`, own attributes. -/
+def parseClsRaw (s : String) : Option (Option Name × Option Nat × List (Name × TraitDef)) :=
   match s.splitOn "," with
-  | pfx :: attrs => do
-    let pfx ← if pfx = "-" then some none
-              else if pfx.startsWith "=" then some (some (nm (pfx.drop 1).toString)) else none
+  | head :: attrs => do
+    let (pfxS, base) ← match head.splitOn "^" with
+      | [p] => some (p, none)
+      | [p, b] => b.toNat?.map fun k => (p, some k)
+      | _ => none
+    let pfx ← if pfxS = "-" then some none
+              else if pfxS.startsWith "=" then some (some (nm (pfxS.drop 1).toString)) else none
     let attrs ← (attrs.filter (· ≠ "")).mapM parseAttr
     let names := attrs.map (·.1)
     -- a class body is a dict: distinct names; `d` is the delegate reference attribute
-    if names.eraseDups.length ≠ names.length ∨ names.contains (nm "d") then none else pure ⟨pfx, attrs⟩
+    if names.eraseDups.length ≠ names.length ∨ names.contains (nm "d") then none else pure (pfx, base, attrs)
   | _ => none
+
+/-- Resolve base classes (a base must be an earlier class of the line). -/
+def resolveClasses : List (Option Name × Option Nat × List (Name × TraitDef)) → List Cls → Option (List Cls)
+  | [], acc => some acc
+  | (pfx, none, attrs) :: rest, acc => resolveClasses rest (acc ++ [⟨pfx, attrs⟩])
+  | (pfx, some k, attrs) :: rest, acc =>
+    match acc[k]? with
+    | none => none
+    | some b => resolveClasses rest (acc ++ [b.subclass pfx attrs])
+
+def parseClasses (s : String) : Option (List Cls) := do
+  let raws ← (s.splitOn "/").mapM parseClsRaw
+  resolveClasses raws []
 
 def parseValidator (s : String) : Option (Nat → Val → Except Exc Val) :=
   match s.splitOn ":" with
@@ -113,7 +131,7 @@ def handle (line : String) : String :=
   match (clean line).splitOn "|" with
   | [kind, classes, objects, validators, ops] =>
     if clean kind ≠ "dg" then "bad-case" else
-    match (classes.splitOn "/").mapM parseCls,
+    match parseClasses classes,
           (fields objects ",").mapM (·.toNat?),
           (fields validators ",").mapM parseValidator,
           (fields ops ";").mapM parseOp with
